@@ -81,14 +81,14 @@ def main():
         m = re.search(r'(\d+) failed, (\d+) passed', o) or re.search(r'()(\d+) passed', o)
         res['tests'] = m.group(0) if m else o[-200:]
         res['tests_ok'] = bool(m) and m.group(2) == '1061' and (m.group(1) in ('', '1'))
-      sh('git checkout -- . && git clean -fdq', cwd=wt)
       res['confirmed'] = (rc0 == 0 and rc1 != 0 and (skip_tests or res.get('tests_ok')))
-      # run our checks against /repo with the patch applied
-      rc, o = sh(f'git apply {patch}', cwd=REPO)
+      # run our checks against the scratch worktree with the patch applied (never against /repo: other
+      # runs may be using it), evidence redirected
+      evd = tempfile.mkdtemp(prefix='fdl-seed-ev-')
       res['checks'] = {}
       try:
         for c in checks:
-          rc, o = sh(f'./check {c} --tier quick', cwd=VERIF, timeout=3600)
+          rc, o = sh(f'FIDDLE_REPO={wt} VERIF_EVIDENCE_DIR={evd} ./check {c} --tier quick', cwd=VERIF, timeout=3600)
           viol = [l for l in o.splitlines() if l.startswith('VIOLATION')]
           res['checks'][c] = {'rc': rc, 'violations': len(viol),
                               'first': (viol[0] if viol else ''),
@@ -96,7 +96,8 @@ def main():
                                                 if l.strip().startswith('features:')), '')[:400],
                               'tail': o[-300:] if rc not in (0, 1) else ''}
       finally:
-        sh('git checkout -- .', cwd=REPO)
+        sh('git checkout -- . && git clean -fdq', cwd=wt)
+        shutil.rmtree(evd, ignore_errors=True)
       res['detected_by'] = [c for c, r in res['checks'].items() if r['rc'] == 1]
       results.append(res)
       print(json.dumps({k: v for k, v in res.items() if k not in ('meta', 'demo_patched_tail')}))
@@ -118,7 +119,6 @@ def main():
                   open(os.path.join(dst, 'meta.json'), 'w'), indent=1)
   finally:
     sh(f'git -C {REPO} worktree remove --force {wt}')
-    sh('git checkout -- .', cwd=REPO)
   print('SUMMARY', json.dumps([(r['mutant'], r.get('confirmed'), r.get('detected_by')) for r in results]))
 
 
